@@ -12,6 +12,7 @@ def configs(tier):
         ('3 merge_attr calls (attribute lists of one or two attributes, any names, tags and order)', dict(length=3, ops=('merge',))),
         ('4 ops over addnew/rm/opt (create+add in one step: reaches position ties after a removal)', dict(length=4, ops=('addnew', 'rm', 'opt'))),
         ('5 ops over new/nest/add/opt/rm (subtree preserved)', dict(length=5, ops=('new', 'nest', 'add', 'opt', 'rm'), render=False)),
+        ('3 ops over new/text/add/merge with attribute names {a, xmlns:x} (namespace declarations x text x rendering)', dict(length=3, ops=('new', 'text', 'add', 'merge'), anames=('a', 'xmlns:x'))),
     ]
     if tier == 'quick': return q
     return q + [
